@@ -76,3 +76,84 @@ End Conditions.
 (* W is (stable-)priceable *)
 Definition priceable_spec (I : inst) (A : profile) (W : list proj) (stable exh : bool) : Prop :=
   exists b pay, price_system I A W b pay stable exh.
+
+(* ------------------------------------------------------------------------------------------------ *)
+(* Relaxations of stable priceability (pabutools/analysis/priceability_relaxation.py): the right-hand
+   side of the stability condition S5 -- the cost of the non-selected project -- is replaced by a relaxed
+   cost that depends on a parameter beta.  A value of type [relax] is a relaxation class TOGETHER WITH its
+   parameter(s):  MinMul beta, MinAdd beta, MinAddVector (beta_c)_c, MinAddVectorPositive (beta_c)_c,
+   MinAddOffset beta_global (beta_c)_c.  Vectors are lists indexed by project rank (missing entries = 0). *)
+Inductive relax :=
+| RMul (beta : Q)
+| RAdd (beta : Q)
+| RVec (betas : list Q)
+| RVecPos (betas : list Q)
+| ROff (bg : Q) (betas : list Q).
+
+Definition beta_at (l : list Q) (c : proj) : Q := nth c l 0.
+
+(* Relaxation.get_relaxed_cost *)
+Definition relaxed_cost (I : inst) (R : relax) (c : proj) : Q :=
+  match R with
+  | RMul beta => cost I c * beta
+  | RAdd beta => cost I c + beta
+  | RVec l => cost I c + beta_at l c
+  | RVecPos l => cost I c + beta_at l c
+  | ROff g l => cost I c + g + beta_at l c
+  end.
+
+(* what each class minimises *)
+Definition relax_objective (I : inst) (R : relax) : Q :=
+  match R with
+  | RMul beta => beta
+  | RAdd beta => beta
+  | RVec l => Qsum (map (beta_at l) (all_projects I))
+  | RVecPos l => Qsum (map (beta_at l) (all_projects I))
+  | ROff g _ => g
+  end.
+
+(* beta = 1 (MinMul) / beta = 0 (the additive classes): no relaxation *)
+Inductive rkind := KMul | KAdd | KVec | KVecPos | KOff.
+Definition kind_of (R : relax) : rkind :=
+  match R with RMul _ => KMul | RAdd _ => KAdd | RVec _ => KVec | RVecPos _ => KVecPos | ROff _ _ => KOff end.
+Definition relax_neutral (k : rkind) : relax :=
+  match k with KMul => RMul 1 | KAdd => RAdd 0 | KVec => RVec [] | KVecPos => RVecPos [] | KOff => ROff 0 [] end.
+
+(* the order on parameters: same class, every parameter at least as large *)
+Definition relax_le (R R' : relax) : Prop :=
+  match R, R' with
+  | RMul a, RMul a' => a <= a'
+  | RAdd a, RAdd a' => a <= a'
+  | RVec l, RVec l' => forall c, beta_at l c <= beta_at l' c
+  | RVecPos l, RVecPos l' => forall c, beta_at l c <= beta_at l' c
+  | ROff g l, ROff g' l' => g <= g' /\ forall c, beta_at l c <= beta_at l' c
+  | _, _ => False
+  end.
+
+Section RelaxedConditions.
+  Variables (I : inst) (A : profile) (W : list proj) (b : Q) (pay : payfun).
+  (* [rc c] stands for the relaxed cost of project c *)
+  Variable rc : proj -> Q.
+
+  Definition S5r : Prop :=
+    forall c, (c < nproj I)%nat -> ~ In c W ->
+      Qsum (map (stable_claim I b pay) (supporters A c)) <= rc c.
+  Definition S5r_tol (eps : Q) : Prop :=
+    forall c, (c < nproj I)%nat -> ~ In c W ->
+      Qsum (map (stable_claim I b pay) (supporters A c)) <= rc c + eps.
+
+  (* a price system for W whose stability condition is measured against rc; rc = cost gives back
+     [price_system] (by computation) *)
+  Definition price_system_g (stable exh : bool) : Prop :=
+    C0a I W /\ (exh = true -> C0b I W) /\ P0 I A pay /\ C1 I A pay /\ C2 I A b pay /\ C3 I A W pay
+    /\ C4 I A W pay /\ (if stable then S5r else C5 I A W b pay).
+  Definition price_system_g_tol (eps : Q) (stable exh : bool) : Prop :=
+    C0a I W /\ (exh = true -> C0b I W) /\ P0_tol I A pay eps /\ C1 I A pay /\ C2_tol I A b pay eps
+    /\ C3_tol I A W pay eps /\ C4_tol I A W pay eps
+    /\ (if stable then S5r_tol eps else C5_tol I A W b pay eps).
+End RelaxedConditions.
+
+(* (b, pay) is a price system for W under the relaxation R (class and parameters) *)
+Definition relaxed_price_system (I : inst) (A : profile) (W : list proj) (b : Q) (pay : payfun)
+           (R : relax) (exh : bool) : Prop :=
+  price_system_g I A W b pay (relaxed_cost I R) true exh.
